@@ -731,6 +731,72 @@ theorem all_allowed (c : Controller.Cfg) (hwf : WF3 c) (s : State) (g : Ghost) (
         (fun hi => by simp [hc.inRef hi])).1 (Or.inr (by rw [← rfEv_eq]; exact hev))
       simp [allowed, reqOf, this.1, this.2.1, this.2.2, ← hwf.rp]
 
+/-! ### the commands of one cycle do not conflict with each other -/
+theorem exclusive_iff (q : Req) (l : List Ev) : exclusive q l = true ↔ l.Pairwise (fun a b => conflict q a b = false) := by
+  induction l with
+  | nil => simp [exclusive]
+  | cons e rest ih =>
+    simp only [exclusive, Bool.and_eq_true, List.all_eq_true, Bool.not_eq_true', List.pairwise_cons, ih]
+
+/-- where an event of bank machine `j` comes from: the chooser that granted `j` accepted -/
+theorem bmEv_src (c : Controller.Cfg) (hab : 11 ≤ c.bm.abits) (s : State) (ins : Array BankIn) (j : Nat) (hj : j < c.nbm) (e : Ev)
+    (he : bmEv c s ins j = some e) :
+    ((combOf c s ins).reqAccept = true ∧ s.grantReq = j ∧ e = evOfReq (reqJ c s ins j) j (apOf c s ins j)) ∨
+    ((combOf c s ins).cmdAccept = true ∧ s.grantCmd = j ∧ e = evOfReq (reqJ c s ins j) j (apOf c s ins j)) := by
+  cases hr : bmReadyOf c s ins j
+  · rw [bmEv_notready c s ins j hr] at he; cases he
+  · have hv := bmReady_valid c hab s ins j hj hr
+    rw [bmEv_ready c hab s ins j hr hv] at he
+    cases he
+    rw [bmReady_eq] at hr
+    simp only [Bool.or_eq_true, Bool.and_eq_true, beq_iff_eq] at hr
+    rcases hr with ⟨ha, hg⟩ | ⟨ha, hg⟩
+    · exact Or.inl ⟨ha, hg, rfl⟩
+    · exact Or.inr ⟨ha, hg, rfl⟩
+
+theorem bm_pair_noconflict (c : Controller.Cfg) (hab : 11 ≤ c.bm.abits) (s : State) (ins : Array BankIn) (i j : Nat)
+    (hi : i < c.nbm) (hj : j < c.nbm) (hij : i ≠ j) (a b : Ev) (ha : bmEv c s ins i = some a) (hb : bmEv c s ins j = some b) :
+    conflict (reqOf c) a b = false := by
+  have hne : (i == j) = false := by simpa using hij
+  have hne' : (j == i) = false := by simpa using (Ne.symm hij)
+  rcases bmEv_src c hab s ins i hi a ha with ⟨hai, hgi, rfl⟩ | ⟨hai, hgi, rfl⟩ <;>
+    rcases bmEv_src c hab s ins j hj b hb with ⟨haj, hgj, rfl⟩ | ⟨haj, hgj, rfl⟩
+  · exact absurd (hgi.symm.trans hgj) hij
+  · -- i: column command of the request chooser, j: row command of the command chooser
+    obtain ⟨hmulti, _, hcas, hras, _⟩ := cmd_accept_facts c hab s ins haj
+    have hr := req_accept_facts c hab s ins hai
+    rw [hgj] at hcas hras; rw [hgi] at hr
+    have hci : (reqJ c s ins i).cas = true := hr.2.2.2.2.2.2.1 hmulti
+    simp only [evOfReq, hci, hcas, if_true]
+    cases (reqJ c s ins i).isWrite <;> cases (reqJ c s ins j).we <;> simp [conflict, conflict1, hne, hne']
+  · obtain ⟨hmulti, _, hcas, hras, _⟩ := cmd_accept_facts c hab s ins hai
+    have hr := req_accept_facts c hab s ins haj
+    rw [hgi] at hcas hras; rw [hgj] at hr
+    have hcj : (reqJ c s ins j).cas = true := hr.2.2.2.2.2.2.1 hmulti
+    simp only [evOfReq, hcj, hcas, if_true]
+    cases (reqJ c s ins j).isWrite <;> cases (reqJ c s ins i).we <;> simp [conflict, conflict1, hne, hne']
+  · exact absurd (hgi.symm.trans hgj) hij
+
+theorem evs_exclusive (c : Controller.Cfg) (hab : 11 ≤ c.bm.abits) (s : State) (ins : Array BankIn) :
+    exclusive (reqOf c) (evsOf c s ins) = true := by
+  rw [exclusive_iff, evsOf, List.pairwise_append]
+  refine ⟨?_, ?_, ?_⟩
+  · rw [List.pairwise_filterMap]
+    refine List.Pairwise.imp_of_mem ?_ (List.pairwise_lt_range (n := c.nbm))
+    intro i j hi hj hlt a ha b hb
+    exact bm_pair_noconflict c hab s ins i j (List.mem_range.mp hi) (List.mem_range.mp hj) (Nat.ne_of_lt hlt) a b ha hb
+  · cases rfEv c s <;> simp
+  · intro a ha b hb
+    obtain ⟨j, hj, haj⟩ := List.mem_filterMap.mp ha
+    have hrf : rfEv c s = some b := by simpa using hb
+    have hfsm : s.fsm = .refresh := by
+      simp only [rfEv] at hrf
+      split at hrf
+      · rename_i h; simp only [Bool.and_eq_true, beq_iff_eq] at h; exact h.2
+      · cases hrf
+    have := bm_inactive_nop c s ins j (by rw [hfsm]; exact ⟨by decide, by decide⟩)
+    simp [bmEv, this] at haj
+
 theorem wr_nostrobe (c : Controller.Cfg) (hab : 11 ≤ c.bm.abits) (s : State) (ins : Array BankIn) (h : s.fsm ≠ .write) :
     wrStrobeOf c s ins = false := by
   cases hw : wrStrobeOf c s ins
